@@ -1,11 +1,11 @@
 //! C19: several dumps from one configured writer vs. a freshly configured writer, same blocked target.
 use crate::c01::{gen_cfg, gen_scenario};
 use crate::live::*;
-use crate::recdest::RecDest;
+use crate::recdest::{RecDest, Resp};
 use crate::rng::Rng;
 
 pub fn generate(seed: u64, tier: &str, out: &mut dyn std::io::Write) {
-    let n = if tier == "thorough" { 60 } else { 10 };
+    let n = if tier == "thorough" { 120 } else { 30 };
     let dir = run_dir("C19");
     for i in 0..n {
         let mut r = Rng::for_case(seed, 19, i);
@@ -22,19 +22,39 @@ pub fn generate(seed: u64, tier: &str, out: &mut dyn std::io::Write) {
         let mut w = writer_for(&t, &cfg);
         let mut imgs = Vec::new();
         let mut results = Vec::new();
+        // Some requests of the sequence are made to fail part-way (the destination refuses a call, or
+        // panics): whatever such a request recorded must not show up in the next one either.
+        let mut rd = Rng::new(r.next() ^ 0x19);
         for j in 0..k {
             let mut dest = RecDest::new(vec![], 0);
+            let disturb = j + 1 < k && rd.chance(1, 2);
+            if disturb {
+                let call = *rd.pick(&[1usize, 3, 8, 20, 30, 40, 41, 42, 43, 44, 45]);
+                if rd.chance(1, 3) {
+                    dest.panic_at = Some(call);
+                } else {
+                    dest.script.insert(call, Resp::Fail);
+                }
+            }
             t.wait_parked();
-            match w.dump(&mut dest) {
-                Ok(img) => {
+            let prev = std::panic::take_hook();
+            std::panic::set_hook(Box::new(|_| {}));
+            let res = std::panic::catch_unwind(std::panic::AssertUnwindSafe(|| w.dump(&mut dest)));
+            std::panic::set_hook(prev);
+            match res {
+                Ok(Ok(img)) => {
                     let p = format!("{}/w{}-{}-{}.img", dir, seed, i, j);
                     std::fs::write(&p, &img).unwrap();
                     imgs.push(format!("@{}", p));
                     results.push("ok".to_string());
                 }
-                Err(e) => {
+                Ok(Err(e)) => {
                     imgs.push("-".into());
-                    results.push(format!("err:{}", err_class(&e)));
+                    results.push(format!("{}err:{}", if disturb { "disturbed-" } else { "" }, err_class(&e)));
+                }
+                Err(_) => {
+                    imgs.push("-".into());
+                    results.push(format!("{}panic", if disturb { "disturbed-" } else { "" }));
                 }
             }
         }
